@@ -75,6 +75,7 @@ type op struct {
 //   respPause respUnpause respCancel   responder: Pause / Unpause / Cancel
 //   disconnect                unlink and disconnect the two peers of request k (network failure)
 //   awaitReqState awaitRespState   wait (bounded) until k is reported in state code N (directed corpus cases)
+//   respClose reqClose        take every token out of the gate again (the next block hook blocks)
 //   sentAllow                 add N tokens to the responder's block-sent listener gate of k
 //   respAllow reqAllow        add N tokens to a gate (block hooks take one token per block)
 //   respHookPause respHookErr the responder's next block hook for k pauses / terminates with an error
@@ -124,6 +125,15 @@ func (g *gate) pass(done <-chan struct{}) string {
 	a := g.next
 	g.next = ""
 	return a
+}
+func (g *gate) drain() {
+	for {
+		select {
+		case <-g.tok:
+		default:
+			return
+		}
+	}
 }
 func (g *gate) setNext(a string) { g.mu.Lock(); g.next = a; g.mu.Unlock() }
 
@@ -642,6 +652,10 @@ func (r *runner) apply(o op) {
 		r.qgate[k].allow(o.N)
 	case "sentAllow":
 		r.sgate[k].allow(o.N)
+	case "respClose":
+		r.rgate[k].drain()
+	case "reqClose":
+		r.qgate[k].drain()
 	case "awaitReqState", "awaitRespState":
 		// progress wait used by directed corpus cases (coverage only, never a verdict): up to 2 s for
 		// request k to be reported in state code N on the requestor / responder
@@ -930,6 +944,64 @@ func genCase(r *rng.R, thorough bool) qcase {
 	return c
 }
 
+// directedResume builds the family "pause -> (the responder retires the old incarnation) -> unpause
+// -> hold the resumed run at a gate -> observe -> release -> finish": while the resumed request is
+// held, both nodes must report it running with its topic active.
+//
+//	who: "reqApi" | "reqHook" (requestor Pause / incoming-block hook) | "respApi" | "respHook"
+func directedResume(who string, workers int) qcase {
+	var c qcase
+	for n := 0; n < nNodes; n++ {
+		c.Workers[n] = [2]int{workers, workers}
+	}
+	o := func(kind string, n int) { c.Ops = append(c.Ops, op{Kind: kind, K: 1, N: n}) }
+	switch who {
+	case "reqApi", "reqHook":
+		c.Reqs = []reqSpec{{From: 0, To: 1, Len: 5, RespHook: "ok", RespGate: 2, ReqGate: 0, SentGate: -1}}
+		o("start", 0)
+		o("awaitRespState", 2)
+		if who == "reqApi" {
+			o("reqPause", 0)
+		} else {
+			o("reqHookPause", 0)
+		}
+		o("reqAllow", 1) // the hook of block 1 returns: the pause is noticed, the executor sends a cancel
+		o("awaitReqState", 3)
+		o("reqUnpause", 0) // waits for the responder to retire the cancelled incarnation
+		o("awaitReqState", 2)
+		o("respClose", 0) // resumed run: held at the requestor's hook of the (now local) first block
+		o("reqAllow", 1)  // first block passes; the next one is missing: the request is sent again
+		o("awaitRespState", 2)
+		o("respAllow", 1) // responder now held at its second outgoing-block hook, requestor at its next hook
+		o("respAllow", -1)
+		o("reqAllow", -1)
+	case "respApi", "respHook":
+		c.Reqs = []reqSpec{{From: 0, To: 1, Len: 6, RespHook: "ok", RespGate: 1, ReqGate: -1, SentGate: -1}}
+		o("start", 0)
+		o("awaitRespState", 2)
+		if who == "respApi" {
+			o("respPause", 0)
+			o("respAllow", 2) // hook of block 2 returns; block 3's transaction reads the pause signal and still runs its hook
+		} else {
+			o("respHookPause", 0)
+			o("respAllow", 1) // hook of block 2 pauses
+		}
+		o("awaitRespState", 3)
+		o("respClose", 0)
+		o("respUnpause", 0) // queued again, popped, held at the next outgoing-block hook
+		o("awaitRespState", 2)
+		o("respAllow", 1)
+		o("respAllow", -1)
+	}
+	if workers == 2 {
+		// a second request of the same pair, held at its first block on the responder all along
+		c.Reqs = append(c.Reqs, reqSpec{From: 0, To: 1, Len: 3, RespHook: "ok", RespGate: 0, ReqGate: -1, SentGate: -1})
+		c.Ops = append([]op{{Kind: "start", K: 2}, {Kind: "awaitRespState", K: 2, N: 2}}, c.Ops...)
+		c.Ops = append(c.Ops, op{Kind: "respAllow", K: 2, N: -1})
+	}
+	return c
+}
+
 func tagsOf(c qcase) []string {
 	seen := map[string]bool{}
 	var t []string
@@ -941,9 +1013,6 @@ func tagsOf(c qcase) []string {
 	}
 	for _, o := range c.Ops {
 		add("op:" + o.Kind)
-		if o.Kind == "reqUnpauseRace" {
-			add("id-reuse-before-retired")
-		}
 	}
 	for _, q := range c.Reqs {
 		add("hook:" + q.RespHook)
@@ -995,9 +1064,18 @@ func run(c *drv.Ctx) error {
 				}
 			}
 			js := qc
-			js.Tags = tags
+			js.Tags = append([]string(nil), tags...)
+			// finding C23-F1 is about the RESPONDER of a request whose requestor raced its unpause: only
+			// that node's incoming direction may be attributed to it (derived from the input: the op
+			// and which request it names); a failure anywhere else in the same case is reported
+			for _, o := range qc.Ops {
+				if o.Kind == "reqUnpauseRace" && o.K >= 1 && o.K <= len(qc.Reqs) && ik.resp && qc.Reqs[o.K-1].To == ik.node {
+					js.Tags = append(js.Tags, "id-reuse-before-retired")
+					break
+				}
+			}
 			js.Inst = fmt.Sprintf("node%d-%s", ik.node, map[bool]string{false: "outgoing", true: "incoming"}[ik.resp])
-			idx := w.Add(r.term(ik, ended), js, nontrivial, append([]string{"side:" + map[bool]string{false: "requestor", true: "responder"}[ik.resp]}, tags...)...)
+			idx := w.Add(r.term(ik, ended), js, nontrivial, append([]string{"side:" + map[bool]string{false: "requestor", true: "responder"}[ik.resp]}, js.Tags...)...)
 			for _, b := range r.bad {
 				w.Violation(idx, b, "unknown-id")
 			}
@@ -1023,7 +1101,14 @@ func run(c *drv.Ctx) error {
 			return err
 		}
 	}
-	n := c.Count(32, 600)
+	// directed family (both tiers): resumed runs held at a gate, every way of pausing, 2 workers
+	// (the 1-worker variants are corpus cases)
+	for _, who := range []string{"reqApi", "reqHook", "respApi", "respHook"} {
+		if err := doCase(directedResume(who, 2), "directed"); err != nil {
+			return err
+		}
+	}
+	n := c.Count(48, 600)
 	for i := 0; i < n; i++ {
 		if err := doCase(genCase(c.R.Fork(), c.Thorough()), "generated"); err != nil {
 			return err
